@@ -344,6 +344,24 @@ type vgShadow struct {
 	vgShadowSib2
 }
 
+// position mixins embedded by pointer (the pointer is nil when parsing starts)
+type VgPosMixin struct {
+	Pos    lexer.Position
+	EndPos lexer.Position
+}
+
+type vgPosPtrMixin struct {
+	*VgPosMixin
+	A string `@A`
+	B string `@B?`
+}
+
+type vgPosPtrMixinUnexported struct {
+	*vgPosBase
+	A string `@A`
+	B string `@B?`
+}
+
 type vgPosEmbedded struct {
 	vgPosBase
 	A string `@A`
@@ -451,17 +469,19 @@ func VH_C01_EmptyCaptures() { vhC01[vgEmptyCaptures](vhNoElide) }
 
 func VH_C02_Canary() { VH_C01_Canary() }
 
-func VH_C06_Seq()        { vhC06[vgSeq](vhNoElide) }
-func VH_C06_Alt()        { vhC06[vgAlt](vhElideWs) }
-func VH_C06_Group()      { vhC06[vgGroup](vhNoElide) }
-func VH_C06_NonEmpty()   { vhC06[vgNonEmpty](vhNoElide) }
-func VH_C06_Neg()        { vhC06[vgNeg](vhNoElide) }
-func VH_C06_Sub()        { vhC06[vgSub](vhNoElide) }
-func VH_C06_Union()      { vhC06[vgUnion](vhUnionCfg) }
-func VH_C06_UnionMixed() { vhC06[vgUnionMixed](vhUnionMixedCfg) }
-func VH_C06_EmptyTok()   { vhC06[vgEmptyTok](vhNoElide) }
-func VH_C06_Tokens()     { vhC06[vgTokens](vhElideWs) }
-func VH_C06_Leak()       { vhC06[vgLeak](vhNoElide) }
+func VH_C06_Seq()                { vhC06[vgSeq](vhNoElide) }
+func VH_C06_Alt()                { vhC06[vgAlt](vhElideWs) }
+func VH_C06_Group()              { vhC06[vgGroup](vhNoElide) }
+func VH_C06_NonEmpty()           { vhC06[vgNonEmpty](vhNoElide) }
+func VH_C06_Neg()                { vhC06[vgNeg](vhNoElide) }
+func VH_C06_Sub()                { vhC06[vgSub](vhNoElide) }
+func VH_C06_Union()              { vhC06[vgUnion](vhUnionCfg) }
+func VH_C06_UnionMixed()         { vhC06[vgUnionMixed](vhUnionMixedCfg) }
+func VH_C06_PtrMixin()           { vhC06[vgPosPtrMixin](vhElideWs) }
+func VH_C06_PtrMixinUnexported() { vhC06[vgPosPtrMixinUnexported](vhElideWs) }
+func VH_C06_EmptyTok()           { vhC06[vgEmptyTok](vhNoElide) }
+func VH_C06_Tokens()             { vhC06[vgTokens](vhElideWs) }
+func VH_C06_Leak()               { vhC06[vgLeak](vhNoElide) }
 
 func VH_C06_NamedAlt()  { vhC06[vgNamedAlt](vhElideWs) }
 func VH_C06_Elided()    { vhC06[vgElided](vhElideWs) }
